@@ -228,12 +228,14 @@ def _const(run, P):
     ca = E.methods["map_commut_assoc"]
     e = ca.params[1]
     ok = False
+    recognised = False
     for lp in ast.walk(ca.node):
         if isinstance(lp, ast.For) and norm(lp.iter) == f"{e}.children" \
                 and isinstance(lp.target, ast.Name):
             ch = lp.target.id
             for b_ in lp.body:
                 if isinstance(b_, ast.If) and norm(b_.test) == f"self.is_constant[{ch}]":
+                    recognised = True
                     cs = [m_ for s_ in b_.body for m_ in find(f"V_c.append({ch})", s_)]
                     ns = [m_ for s_ in b_.orelse for m_ in find(f"V_n.append(self.rec({ch}))", s_)]
                     # and neither list receives the child on the other branch
@@ -242,6 +244,29 @@ def _const(run, P):
                             [m_ for s_ in b_.body for m_ in find(f"V_n.append(ANY)", s_)
                              if ns and m_[1]["V_n"] == ns[0][1]["V_n"]]
                     ok = bool(cs) and bool(ns) and not wrong
+    # operands form a multiset: nothing keyed by an operand
+    keyed = []
+    for m_ in E.methods.values():
+        for x in ast.walk(m_.node):
+            gens = getattr(x, "generators", None)
+            if isinstance(x, (ast.DictComp, ast.SetComp)) and gens \
+                    and any("children" in norm(g_.iter) for g_ in gens):
+                key = x.key if isinstance(x, ast.DictComp) else x.elt
+                tv = {y.id for g_ in gens for y in ast.walk(g_.target) if isinstance(y, ast.Name)}
+                if isinstance(key, ast.Name) and key.id in tv:
+                    keyed.append((m_, x))
+            if isinstance(x, ast.Call) and dotted(x.func) in ("set", "frozenset", "dict.fromkeys") \
+                    and x.args and "children" in norm(x.args[0]):
+                keyed.append((m_, x))
+    run.ob("C18.const", keyed[0][0] if keyed else ca, keyed[0][1] if keyed else ca.node, not keyed,
+           construct="the operands of a sum / product are never used as keys of a dict or members "
+                     "of a set" + (f" (found {norm(keyed[0][1], 50)})" if keyed else ""),
+           why="x*x*a regrouped through a mapping keyed by operand is a*x: equal operands are "
+               "one key")
+    if not recognised:
+        # the split is written in another way: not understood (exit 2), not a finding
+        raise AnalysisError("map_commut_assoc: the loop that splits the children by is_constant "
+                            "was not recognised")
     run.ob("C18.const", ca, ca.node, ok,
            construct="regrouping: children split by is_constant; non-constants are recursed",
            why="only constant children may be folded into the hoisted group")
